@@ -785,6 +785,12 @@ def Schema.valid (S : Schema) (x : Node) : Bool :=
   | some tk => validElem S (.named tk) false x
   | none => false
 
+/-! ## `default=` -/
+
+/-- the `default="…"` of an element or attribute declaration: `complex_add` / `xml_attribute_add` write
+    `to_unicode(type, default)`, the literal the protocol also puts on the wire when the member is None -/
+def defaultLiteral (F : Facts08) (p : PrimTy) (v : Val) : Option Text := leafToText F p v
+
 /-! ## rendering helpers for the structural comparison with the real documents (driver only) -/
 
 def patternText (p : Pattern) : Text :=
